@@ -270,6 +270,20 @@ def extra_cases(S, tier):
     inner = ("struct", "In", (("a", 0, U(32), None, None), ("b", 1, U(16), None, None)))
     outer = ("struct", "Msg", (("h", 0, U(32), None, None), ("n", 1, ("ref", "In"), None, None)))
     cases.append(("oversize-big-endian", 80, [inner, outer, ("impl", "can", "Msg", None, (("id", 2), ("device", "ecu")), (("b", (big,)),))]))
+    # enums at the edges of their width: a single enumerator 0 is one bit wide, 2^k needs k+1 bits (also where floats stop being exact)
+    for label, fields, bits in (
+        ("single-valued", (U(64), enum_with_max(0)), 65),
+        ("single-valued", (enum_with_max(0), U(32), U(32)), 65),
+        ("single-valued-fits", (U(63), enum_with_max(0)), 64),
+        ("2^53", (enum_with_max(1 << 53), U(11)), 65),
+        ("2^53-fits", (enum_with_max(1 << 53), U(10)), 64),
+        ("2^49", (U(15), enum_with_max(1 << 49)), 65),
+        ("2^63", (enum_with_max(1 << 63), U(1)), 65),
+        ("2^63-fits", (enum_with_max(1 << 63),), 64),
+    ):
+        h2 = Hoister()
+        decl = struct_decl("Msg", ("st", tuple(("f%d" % i, i, t) for i, t in enumerate(fields))), h2)
+        cases.append(("enum-width-edge:" + label, bits, h2.decls + [decl, ("impl", "can", "Msg", None, (("id", 2), ("device", "ecu")), ())]))
     # oversize structs bound to a protocol whose name differs from 'can' only in case: whether that counts as a CAN binding
     # is the front end's business, but whoever describes the message has to measure it first
     for proto in ("CAN", "Can", "cAN"):
